@@ -9,13 +9,19 @@
 #include <symengine/symbol.h>
 #include <symengine/eval_double.h>
 #include <symengine/printers.h>
+#include <symengine/derivative.h>
+#include <symengine/visitor.h>
+#include <symengine/subs.h>
+#include <symengine/assumptions.h>
+#include <symengine/test_visitors.h>
+#include <symengine/simplify.h>
 #include <iostream>
 #include <functional>
 #include <unistd.h>
 #include <sys/wait.h>
 using namespace SymEngine;
 void probe(const char *name, std::function<RCP<const Basic>()> mk){
-    for (int op = 0; op < 4; op++) {
+    for (int op = 0; op < 14; op++) {
         pid_t p = fork();
         if (p == 0) {
             alarm(5);
@@ -25,11 +31,21 @@ void probe(const char *name, std::function<RCP<const Basic>()> mk){
                 if (op == 1) (void)e->hash();
                 if (op == 2) (void)e->__cmp__(*mk());
                 if (op == 3) (void)latex(*e);
+                if (op == 4) (void)eval_double(*e);
+                if (op == 5) (void)e->diff(symbol("x"));
+                if (op == 6) (void)expand(e);
+                if (op == 7) (void)e->subs({{symbol("x"), integer(2)}});
+                if (op == 8) (void)ccode(*e);
+                if (op == 9) (void)mathml(*e);
+                if (op == 10) (void)is_positive(*e);
+                if (op == 11) (void)free_symbols(*e);
+                if (op == 12) (void)simplify(e);
+                if (op == 13) (void)unicode(*e);
             } catch (std::exception &ex) { _exit(2); }
             _exit(0);
         }
         int st; waitpid(p, &st, 0);
-        const char *ops[] = {"str", "hash", "cmp", "latex"};
+        const char *ops[] = {"str", "hash", "cmp", "latex","eval_double","diff","expand","subs","ccode","mathml","is_positive","free_symbols","simplify","unicode"};
         if (WIFSIGNALED(st)) std::cout << name << ": " << ops[op] << (WTERMSIG(st) == 14 ? " HANG, killed after 5 s, signal " : " SIGNAL ") << WTERMSIG(st) << std::endl;
         else if (WEXITSTATUS(st) == 2) std::cout << name << ": " << ops[op] << " exception\n";
     }
@@ -47,6 +63,10 @@ int main(){
     probe("Add{0,{}}", []{ return make_rcp<const Add>(zero, umap_basic_num{}); });
     probe("Derivative{x,{}}", []{ return make_rcp<const Derivative>(symbol("x"), multiset_basic{}); });
     probe("Subs{x,{}}", []{ return make_rcp<const Subs>(symbol("x"), map_basic_basic{}); });
+    probe("LeviCivita{}", []{ return make_rcp<const LeviCivita>(vec_basic{}); });
+    probe("FunctionSymbol f()", []{ return make_rcp<const FunctionSymbol>("f", vec_basic{}); });
+    probe("Tuple{}", []{ return make_rcp<const Tuple>(vec_basic{}); });
+    probe("Intersection{}", []{ return make_rcp<const Intersection>(set_set{}); });
     std::cout << "done\n";
     return 0;
 }
